@@ -116,6 +116,8 @@ def run(ctx):
         mops += [('SEQ', (DUP(1), ('SIZE',), ('SWAP',))), ('MAP', (('CDR',), ('SIZE',))), ('MAP', (('CAR',),)),
                  ('SEQ', (DUP(1), ('NIL', P(t, STR)), ('SWAP',), ('ITER', (('CONS',),)), ('SWAP',)))]
         fams['map%d' % idx] = dict(depth=depth, maxstack=3, inits=[(S(MAP(t, STR), ('map', ())),)], alphabet=mops)
+    for name in ('bigmap', 'bigset'):        # 9 / 17 / 20 entries: beyond any size threshold an implementation may switch algorithms at
+        fams[name] = dict(vmfam.FAMILIES[name], depth=2 if ctx.quick else 3)
     C01.run_families(ctx, 'C14', 'coll', fams)
     ctx.exhaustive = True
 
